@@ -8,7 +8,7 @@
 (* locals one record per thread in L, ghost/history state in G.                   *)
 (*                                                                                *)
 (* Driver threads run programs of operations (Prog):                              *)
-(*   new n | up | sync | idle | quiet | sched k | fq k | bulk k n | rbulk k n |          *)
+(*   new n | up | sync | idle | quiet | sched k | fq k | placed k | pfq k | bulk k n | rbulk k n |          *)
 (*   resize n | wake b | del                                                      *)
 (* Worker threads "w0".."w<MaxW-1>" are created by new/resize.                    *)
 EXTENDS Integers, Sequences, FiniteSets, TLC
@@ -44,7 +44,7 @@ Min(a, b) == IF a < b THEN a ELSE b
 Max(a, b) == IF a > b THEN a ELSE b
 
 OpIds(o) ==
-  CASE o.op \in {"sched", "fq"} -> {o.a}
+  CASE o.op \in {"sched", "fq", "placed", "pfq"} -> {o.a}
     [] o.op \in {"bulk", "rbulk"} -> o.a .. (o.a + o.b - 1)
     [] OTHER -> {}
 TaskIds == UNION {UNION {OpIds(Prog[d][i]) : i \in 1 .. Len(Prog[d])} : d \in Drivers}
@@ -166,6 +166,8 @@ Resume(t, l0) ==
            ELSE LET l1 == [l EXCEPT !.i = l.tgt, !.g = @ + 1] IN      \* next ring
                 IF l1.g < l1.n /\ l1.i < l1.cnt THEN Goto(l1, "rbb", "TpPushRingBatch")
                 ELSE Goto(l1, "rb", "TpLoadWake")
+    [] lab = "PlClaimed" ->                           \* scheduleImplPlaced: claimAndWakeOne returned
+         IF l.res >= 0 THEN Goto(l, "pl", "TpPushSteal") ELSE CallEnq(Push(Push(l, "OpDone"), "Cw"), l.tid)
     [] lab = "ClaimBumped" -> Goto(l, "claim", "PwStoreNextGroup")
     [] lab = "SeedNext" ->                            \* cascadeWakeSeed: next group
          LET l1 == [l EXCEPT !.g = @ + 1] IN
@@ -371,11 +373,17 @@ DrOp(t) ==
        [] o.op = "quiet" -> Commit(S, t, Goto(l, "dr", "GateQuiet"), G)
        [] o.op = "sync" -> Commit(S, t, Goto(l, "dr", "GateOthers"), G)
        [] o.op = "fq" ->
-            Commit(S, t, Goto([l EXCEPT !.tid = o.a], "fq", "TpFqLoadThreads"),
+            Commit(S, t, Goto([l EXCEPT !.tid = o.a, !.ph = 0], "fq", "TpFqLoadThreads"),
                    [G EXCEPT !.sub = @ \cup {o.a}, !.fqset = @ \cup {o.a}])
        [] o.op = "sched" ->
-            Commit(S, t, Goto([l EXCEPT !.tid = o.a], "sched", "TpInlineCheck"),
+            Commit(S, t, Goto([l EXCEPT !.tid = o.a, !.ph = 0], "sched", "TpInlineCheck"),
                    [G EXCEPT !.sub = @ \cup {o.a}])
+       [] o.op = "placed" ->      \* schedulePlaced(f): the path futures and heavy task sets use
+            Commit(S, t, Goto([l EXCEPT !.tid = o.a, !.ph = 9], "sched", "TpInlineCheck"),
+                   [G EXCEPT !.sub = @ \cup {o.a}])
+       [] o.op = "pfq" ->         \* schedulePlaced(f, ForceQueuingTag)
+            Commit(S, t, Goto([l EXCEPT !.tid = o.a, !.ph = 9], "fq", "TpFqLoadThreads"),
+                   [G EXCEPT !.sub = @ \cup {o.a}, !.fqset = @ \cup {o.a}])
        [] o.op = "bulk" ->
             Commit(S, t, Goto([l EXCEPT !.base = o.a, !.cnt = o.b, !.i = 0], "bulk", "TpBulkLoadThreads"),
                    [G EXCEPT !.sub = @ \cup (o.a .. (o.a + o.b - 1))])
@@ -420,7 +428,7 @@ TpInlineCheck(t) ==
   /\ LET l == L[t] IN
      IF S.wr > S.lf                       \* external producer: not pool-recursive
        THEN Commit(S, t, OpDone(t, l), RanG(G, l.tid))
-       ELSE Commit(S, t, Goto(l, "fq", "TpFqLoadThreads"), G)
+       ELSE Commit(S, t, Goto(l, "fq", "TpFqLoadThreads"), G)   \* (l.ph = 9 marks the placed variant)
 
 TpFqLoadThreads(t) ==
   /\ At(t, "fq", "TpFqLoadThreads")
@@ -428,9 +436,42 @@ TpFqLoadThreads(t) ==
      IF S.nt = 0 THEN Commit(S, t, OpDone(t, l), RanG(G, l.tid))
      ELSE Commit(S, t, Goto(l, "fq", "TpAddWork"), G)
 
-TpAddWork(t) ==
+TpAddWork(t) ==       \* ph = 9: forceEnqueue<kPlaced = true> -> scheduleImplPlaced
   /\ At(t, "fq", "TpAddWork")
-  /\ Commit([S EXCEPT !.wr = @ + 1], t, CallEnq(Push(Push(L[t], "OpDone"), "Cw"), L[t].tid), G)
+  /\ Commit([S EXCEPT !.wr = @ + 1], t,
+            IF L[t].ph = 9 THEN Goto(L[t], "pl", "TpLoadWake")
+            ELSE CallEnq(Push(Push(L[t], "OpDone"), "Cw"), L[t].tid), G)
+
+\* ------------------------------------------------------------------ scheduleImplPlaced
+PlFallback(l) == CallEnq(Push(Push(l, "OpDone"), "Cw"), l.tid)     \* central queue + conditionallyWake
+
+PlLoadWake(t) ==
+  /\ At(t, "pl", "TpLoadWake")
+  /\ LET l == [L[t] EXCEPT !.x = S.wg] IN
+     IF S.en /\ S.wg # 0 THEN Commit(S, t, Goto(l, "pl", "TpReadSleeping"), G)
+     ELSE Commit(S, t, PlFallback(l), G)
+
+PlReadSleeping(t) ==
+  /\ At(t, "pl", "TpReadSleeping")
+  /\ Commit(S, t, Goto([L[t] EXCEPT !.sl = Ws(L[t].x).ts], "pl", "TpReadNotWorking"), G)
+
+PlReadNotWorking(t) ==    \* sleeping > 0 && numNotWorking_ - sleeping < kSpinnerWakeThreshold
+  /\ At(t, "pl", "TpReadNotWorking")
+  /\ LET l == L[t] IN
+     IF l.sl > 0 /\ S.nnw - l.sl < 2 THEN Commit(S, t, CallClaim(Push(l, "PlClaimed")), G)
+     ELSE Commit(S, t, PlFallback(l), G)
+
+PlPushSteal(t) ==         \* stealIdx < numStealRings_ && stealRings_[stealIdx].try_push
+  /\ At(t, "pl", "TpPushSteal")
+  /\ LET l == L[t]
+         si == l.res \div SS
+     IN IF si < S.ns /\ Len(S.steal[si]) < StealCap
+          THEN Commit([S EXCEPT !.steal[si] = Append(@, l.tid)], t, Goto([l EXCEPT !.tgt = si], "pl", "TpSetStealBit"), G)
+          ELSE Commit(S, t, PlFallback(l), G)
+
+PlSetStealBit(t) ==
+  /\ At(t, "pl", "TpSetStealBit")
+  /\ Commit([S EXCEPT !.smask = @ \cup {L[t].tgt}], t, OpDone(t, L[t]), G)
 
 \* ------------------------------------------------------------------ scheduleBulk (central queue)
 RECURSIVE RanAll(_, _)
@@ -914,6 +955,7 @@ AllDone == \A d \in Drivers : L[d].pc[2] = "Done"
 ThreadStep(t) ==
   \/ DrStart(t) \/ DrOp(t) \/ DrEnd(t) \/ GateUp(t) \/ GateIdle(t) \/ GateQuiet(t) \/ GateOthers(t) \/ DrRingCheck(t)
   \/ TpInlineCheck(t) \/ TpFqLoadThreads(t) \/ TpAddWork(t)
+  \/ PlLoadWake(t) \/ PlReadSleeping(t) \/ PlReadNotWorking(t) \/ PlPushSteal(t) \/ PlSetStealBit(t)
   \/ TpEnqueue(t) \/ TpSetFlagEnq(t) \/ CwLoadWake(t) \/ CwReadSleeping(t) \/ CwReadPending(t)
   \/ TpBulkLoadThreads(t) \/ TpBulkLoadCheck(t) \/ BeAddWorkN(t) \/ BeEnqueueBulk(t) \/ BeSetFlag(t)
   \/ BeLoadWake(t) \/ BeReadSleeping(t) \/ BeReadNotWorking(t)
